@@ -126,7 +126,7 @@ func (e *Enc) selectAsserts(n int, o *Obligation) []string {
 func (e *Enc) backgroundO(n int, defsOn bool, o *Obligation) string {
 	var b strings.Builder
 	var facts []string
-	if !e.noFacts && (e.token || e.ct != nil && (e.ct.Opts["bytes-axioms"] != "" || e.ct.Opts["bytes-bound"] != "")) {
+	if !e.noFacts && !e.liteB && (e.token || e.ct != nil && (e.ct.Opts["bytes-axioms"] != "" || e.ct.Opts["bytes-bound"] != "")) {
 		facts = e.factsFor() // before the declarations are written: evaluating a fact may declare a function
 	}
 	b.WriteString(preludeSMT)
@@ -135,10 +135,10 @@ func (e *Enc) backgroundO(n int, defsOn bool, o *Obligation) string {
 	}
 	if e.needB {
 		b.WriteString(bytesPrelude)
-		if e.token || e.noFacts || e.ct != nil && (e.ct.Opts["bytes-axioms"] != "" || e.ct.Opts["bytes-bound"] != "") {
+		if !e.liteB && (e.token || e.noFacts || e.ct != nil && (e.ct.Opts["bytes-axioms"] != "" || e.ct.Opts["bytes-bound"] != "")) {
 			b.WriteString(bytesAxioms)
 		}
-		if e.noFacts || e.ct != nil && e.ct.Opts["bytes-le-defs"] != "" {
+		if !e.liteB && (e.noFacts || e.ct != nil && e.ct.Opts["bytes-le-defs"] != "") {
 			b.WriteString(bytesLEDefs)
 		}
 	}
